@@ -55,6 +55,26 @@ def exhaustive(nmax, grid, types=("A", "B"), cfgs=CFGS):
     return out
 
 
+def flat(nkids, grid, types=("A", "B"), cfgs=CFGS, modes=(True,)):
+    """a root with nkids children: every placement of the children's windows on the grid (the sibling-grouping rules
+    in isolation: overlap chains across and inside prior-information groups)"""
+    ivs = [(a, b) for a in range(grid + 1) for b in range(a, grid + 1)]
+    out = []
+    n = nkids + 1
+    par = [0] + [1] * nkids
+    for tys in itertools.product(types, repeat=nkids):
+        for iv in itertools.product(ivs, repeat=nkids):
+            s = [0] + [a for a, _ in iv]
+            e = [grid + 1] + [b for _, b in iv]
+            if not siblings_ok(par, s, e) or list(s[1:]) != sorted(s[1:]):
+                continue          # children listed in start order (their order in the input is shuffled by the driver)
+            for asy in modes:
+                for grp, ren in cfgs:
+                    out.append({"n": n, "par": par, "ty": ["R"] + list(tys), "s": s, "e": e, "async": asy,
+                                "grp": grp, "ren": ren})
+    return out
+
+
 def random_cases(k, seed, maxn=30):
     rnd = random.Random(repr(("c08", seed)))
     out = []
